@@ -49,6 +49,7 @@ def is_validator(prog, b):
 
 def run(ctx, rep):
     prog = ctx.prog
+    wiring_rule(ctx, rep, "C14")
     for r, tx in (("C14.a", "node names are validated before they become paths"), ("C14.b", "destination entries are removed only with delete && !dry_run"),
                   ("C14.c", "write-opens do not follow pre-existing symlinks"), ("C14.d", "sparse holes only over known-zero ranges"),
                   ("C14.e", "destination walk: no link following, component-wise path order"), ("C14.f", "merged read requests keep a tested from_file"), ("C14.g", "file offsets advance by blob length"),
